@@ -2,11 +2,11 @@ package props
 
 import (
 	"context"
-	"time"
 	"encoding/json"
 	"fmt"
 	"strings"
 	"testing"
+	"time"
 
 	"pgregory.net/rapid"
 
